@@ -1399,8 +1399,8 @@ print('REPRODUCED' if got != want or not same(back, ref_unpack(want)[0]) else 'n
 
 @harness('C14', 'supp.umsgpack.packb / unpackb [every size and integer boundary against the reference codec]',
          bounded='integers at every format boundary (+-1) of the 10 integer formats and both range ends; str / bin / ext / array / map with lengths '
-                 '0, 1, 2, 4, 8, 15, 16, 17, 31, 32, 33, 64, 128, 255, 256, 257, 65535, 65536 (ext types -128, -1, 0, 5, 127); nil, booleans, '
-                 'doubles; every non-minimal integer / length form of small values; every proper prefix of the short encodings')
+                 '0, 1, 2, 4, 8, 15, 16, 17, 31, 32, 33, 64, 128, 255, 256, 257, 65535, 65536, 65537, 131073 (ext types -128, -1, 0, 5, 127); nil, booleans, '
+                 'doubles; every non-minimal integer / length form of small values; every proper prefix of the short encodings, about 40 sampled prefixes of each long one (header, payload, around multiples of 2**16)')
 def codec_boundaries(run):
     """BOUNDED stand-in that survives restructurings of the codec (bit tricks on lengths leave the symbolic engine): on every boundary value the
     real packb gives exactly the bytes of the reference encoder, the real unpackb reads them (and every non-minimal form) back to an equal
@@ -1415,7 +1415,7 @@ def codec_boundaries(run):
         edges = [0, 127, 128, 255, 256, 65535, 65536, 2 ** 32 - 1, 2 ** 32, 2 ** 63 - 1, 2 ** 63, 2 ** 64 - 1,
                  -1, -32, -33, -128, -129, -32768, -32769, -2 ** 31, -2 ** 31 - 1, -2 ** 63]
         ints = sorted(set(e + d for e in edges for d in (-1, 0, 1) if -2 ** 63 <= e + d < 2 ** 64))
-        lens = [0, 1, 2, 4, 8, 15, 16, 17, 31, 32, 33, 64, 128, 255, 256, 257, 65535, 65536]
+        lens = [0, 1, 2, 4, 8, 15, 16, 17, 31, 32, 33, 64, 128, 255, 256, 257, 65535, 65536, 65537, 131073]
         cases = [('int:%d' % i, i, i) for i in ints]
         cases += [('%s:%r' % (type(v).__name__, v), v, v) for v in vals]
         for n in lens:
@@ -1442,6 +1442,13 @@ def codec_boundaries(run):
                 vtxt, rtxt = 'u.Ext(%d, b"z" * %d)' % (t, n), 'RefExt(%d, b"z" * %d)' % (t, n)
             else:
                 vtxt = rtxt = repr(v) if len(repr(v)) < 200 else None
+                if vtxt is None:
+                    if isinstance(v, (str, bytes)) and len(set(v)) == 1:
+                        vtxt = rtxt = '%r * %d' % (v[:1], len(v))
+                    elif isinstance(v, list) and v == [1] * len(v):
+                        vtxt = rtxt = '[1] * %d' % len(v)
+                    elif isinstance(v, dict) and v == {i: None for i in range(len(v))}:
+                        vtxt = rtxt = '{i: None for i in range(%d)}' % len(v)
             want = ref_pack(rv)
             try:
                 got = m.packb(v)
@@ -1464,6 +1471,25 @@ def codec_boundaries(run):
             if len(want) <= 40:
                 refused = all(_refuses(m, want[:k]) for k in range(len(want)))
                 prove('proper-prefixes-refused:%s' % label, refused, clause='every proper prefix of the encoding raises InsufficientDataException', path=path)
+            else:
+                # long encodings: cuts inside the header, just behind it, in the middle of the payload and around every multiple of 2**16 from either end
+                n = len(want)
+                cuts = set(range(0, 12)) | {n // 3, n // 2, n - 2, n - 1}
+                for base in (0, n):
+                    for mult in (1, 2):
+                        for d in (-1, 0, 1, 5, 6):
+                            cuts.add(abs(base - mult * 65536) + d)
+                            cuts.add(abs(base - mult * 65536) - d)
+                cuts = sorted(k for k in cuts if 0 <= k < n)
+                accepted = [k for k in cuts if not _refuses(m, want[:k])]
+                if accepted and vtxt:
+                    core.RUN.concretise = lambda model, ob, vtxt=vtxt, k=accepted[0]: {'input': '%s cut after %d bytes' % (vtxt, k), 'script': (
+                        'import sys; sys.path.insert(0, %r)\nimport supp.umsgpack as u\nb = u.packb(%s)[:%d]\n'
+                        'try:\n    r = u.unpackb(b)\n    print("REPRODUCED: a proper prefix (%%d of %%d bytes) is accepted: %%r..." %% (len(b), len(u.packb(%s)), repr(r)[:40]))\n'
+                        'except u.InsufficientDataException:\n    print("not reproduced")\n') % (core.REPO, vtxt, k, vtxt)}
+                prove('sampled-proper-prefixes-refused:%s' % label, not accepted,
+                      clause='%d proper prefixes (header, payload, around multiples of 2**16) raise InsufficientDataException [accepted: %r]' % (len(cuts), accepted[:5]), path=path)
+                core.RUN.concretise = None
         # out-of-range integers are refused, not wrapped
         for bad in (2 ** 64, -2 ** 63 - 1, 2 ** 70):
             try:
